@@ -37,13 +37,17 @@
 (* observable step applies the Ws update and records a violated Ws guard   *)
 (* in `viol` (invariant Refines: viol = {}).                               *)
 (*                                                                         *)
-(* FixDup / FixDel / FixInit = FALSE is the pinned tree:                   *)
+(* FixDup / FixDel = FALSE is the tree as it is (open findings):           *)
 (*   ~FixDup  subscribe() overwrites active[id] of a running operation     *)
 (*   ~FixDel  the worker sends the terminating frame BEFORE it deletes     *)
 (*            active[id], and deletes whatever is registered under the id  *)
+(* FixInit = FALSE is the tree before /repo 930d13f:                       *)
 (*   ~FixInit init() returns silently on a non-object init payload         *)
-(* TRUE is the proposed repair; the properties hold on the repaired model  *)
-(* and TLC produces the counterexamples on the pinned one.                 *)
+(* TRUE is the (proposed / made) repair; the properties hold on the        *)
+(* repaired model (MC_WsImpl.cfg) and TLC produces the counterexamples on  *)
+(* the other (MC_WsImpl_pinned.cfg).  The scripts that are replayed into   *)
+(* the code are generated from the model of the tree as it is              *)
+(* (MC_WsImpl_script.cfg: FixDup = FixDel = FALSE, FixInit = TRUE).        *)
 (***************************************************************************)
 EXTENDS Ws, Json
 
